@@ -999,11 +999,20 @@ impl<T: Serialize + for<'de> Deserialize<'de> + Clone + PartialEq + Send + Sync 
     async fn recover_from_wal(&self, stats: &mut RecoveryStats) -> Result<()> {
         let wal_files = self.find_wal_files()?;
 
+        let current_name = format!("state.{WAL_EXTENSION}");
         for wal_path in wal_files {
             match self.replay_wal_file(&wal_path, stats).await {
-                Ok(entries) => {
+                Ok((entries, intact_len)) => {
                     stats.wal_files_processed += 1;
                     stats.entries_recovered += entries;
+
+                    // New records are appended to the current file. A torn record left
+                    // at its end by a crash would swallow them on the next recovery
+                    // (its length prefix claims bytes that were never written), so cut
+                    // the file back to its intact prefix before writing again.
+                    if wal_path.file_name() == Some(std::ffi::OsStr::new(&current_name)) {
+                        self.truncate_current_wal(&wal_path, intact_len)?;
+                    }
                 }
                 Err(e) => {
                     tracing::error!("Failed to replay WAL file {:?}: {}", wal_path, e);
@@ -1015,8 +1024,41 @@ impl<T: Serialize + for<'de> Deserialize<'de> + Clone + PartialEq + Send + Sync 
         Ok(())
     }
 
+    /// Cut the current WAL file back to `intact_len` if it is longer.
+    fn truncate_current_wal(&self, path: &Path, intact_len: u64) -> Result<()> {
+        let file_len = std::fs::metadata(path).map(|m| m.len()).unwrap_or(0);
+        if intact_len >= file_len {
+            return Ok(());
+        }
+        let file = OpenOptions::new().write(true).open(path).map_err(|e| {
+            P2PError::Storage(StorageError::Database(
+                format!("Failed to open WAL for truncation: {e}").into(),
+            ))
+        })?;
+        file.set_len(intact_len).map_err(|e| {
+            P2PError::Storage(StorageError::Database(
+                format!("Failed to truncate torn WAL tail: {e}").into(),
+            ))
+        })?;
+        file.sync_all().map_err(P2PError::Io)?;
+        let mut writer = self.wal_writer.lock().map_err(|_| {
+            P2PError::Storage(StorageError::LockPoisoned(
+                "mutex lock failed".to_string().into(),
+            ))
+        })?;
+        writer.current_size = intact_len;
+        Ok(())
+    }
+
     /// Replay single WAL file
-    async fn replay_wal_file(&self, path: &Path, stats: &mut RecoveryStats) -> Result<u64> {
+    ///
+    /// Returns the number of entries applied and the length of the intact prefix of
+    /// the file (everything up to the first record that could not be framed).
+    async fn replay_wal_file(
+        &self,
+        path: &Path,
+        stats: &mut RecoveryStats,
+    ) -> Result<(u64, u64)> {
         let mut file = File::open(path).map_err(|e| {
             P2PError::Storage(StorageError::Database(
                 format!("Failed to open WAL file: {e}").into(),
@@ -1025,33 +1067,45 @@ impl<T: Serialize + for<'de> Deserialize<'de> + Clone + PartialEq + Send + Sync 
 
         let mut entries_recovered = 0u64;
         let mut buffer = Vec::new();
+        let file_len = file.metadata().map(|m| m.len()).unwrap_or(0);
+        // End of the last record whose framing (length prefix + body) was intact
+        let mut intact_len = 0u64;
 
         loop {
-            // Read entry size
-            let mut size_bytes = [0u8; 4];
-            match file.read_exact(&mut size_bytes) {
-                Ok(()) => {}
-                Err(e) if e.kind() == std::io::ErrorKind::UnexpectedEof => break,
-                Err(e) => return Err(P2PError::Io(e)),
+            let record_start = file.stream_position().unwrap_or(intact_len);
+            let remaining = file_len.saturating_sub(record_start);
+            if remaining == 0 {
+                break;
             }
 
-            let entry_size = u32::from_le_bytes(size_bytes) as usize;
-
-            // Read entry data
-            buffer.resize(entry_size, 0);
-            match file.read_exact(&mut buffer) {
-                Ok(()) => {}
-                Err(_e) => {
+            // Read entry size. A record that does not fit into the rest of the file is
+            // a torn write (or a damaged length prefix): nothing behind it can be
+            // framed, and its claimed size must not be trusted for an allocation.
+            let mut size_bytes = [0u8; 4];
+            let entry_size = if remaining >= 4 {
+                file.read_exact(&mut size_bytes).map_err(P2PError::Io)?;
+                Some(u32::from_le_bytes(size_bytes) as usize)
+            } else {
+                None
+            };
+            let entry_size = match entry_size {
+                Some(size) if size as u64 <= remaining - 4 => size,
+                _ => {
                     stats.corruption_events.push(CorruptionEvent {
                         file_path: path.to_path_buf(),
                         corruption_type: CorruptionType::IncompleteWrite,
-                        offset: file.stream_position().unwrap_or(0),
+                        offset: record_start,
                         recovery_action: RecoveryAction::Skipped,
                     });
                     stats.entries_failed += 1;
-                    continue;
+                    break;
                 }
-            }
+            };
+
+            // Read entry data
+            buffer.resize(entry_size, 0);
+            file.read_exact(&mut buffer).map_err(P2PError::Io)?;
+            intact_len = record_start + 4 + entry_size as u64;
 
             // Deserialize entry
             let entry: WalEntry = match postcard::from_bytes(&buffer) {
@@ -1127,7 +1181,7 @@ impl<T: Serialize + for<'de> Deserialize<'de> + Clone + PartialEq + Send + Sync 
             }
         }
 
-        Ok(entries_recovered)
+        Ok((entries_recovered, intact_len))
     }
 
     /// Create WAL entry with HMAC
@@ -1376,6 +1430,15 @@ impl<T: Serialize + for<'de> Deserialize<'de> + Clone + PartialEq + Send + Sync 
 
             let entry_size = u32::from_le_bytes(size_bytes) as usize;
 
+            // A claimed size beyond the end of the file is damage, not a record
+            let position = file.stream_position().map_err(P2PError::Io)?;
+            let file_len = file.metadata().map(|m| m.len()).map_err(P2PError::Io)?;
+            if entry_size as u64 > file_len.saturating_sub(position) {
+                return Err(P2PError::Storage(StorageError::CorruptionDetected(
+                    "WAL record length exceeds file size".to_string().into(),
+                )));
+            }
+
             // Read entry data
             buffer.resize(entry_size, 0);
             file.read_exact(&mut buffer).map_err(|e| {
@@ -1534,7 +1597,9 @@ impl<T: Serialize + for<'de> Deserialize<'de> + Clone + PartialEq + Send + Sync 
     /// Verify WAL file integrity
     async fn verify_wal_integrity(&self, path: &Path) -> Result<u64> {
         let stats = &mut RecoveryStats::default();
-        self.replay_wal_file(path, stats).await
+        self.replay_wal_file(path, stats)
+            .await
+            .map(|(entries, _)| entries)
     }
 }
 
